@@ -50,6 +50,8 @@ class Polynomial:
         return self.args == other.args
 
     def __add__(self, other):
+        if isinstance(other, RationalPolynomial):
+            return NotImplemented
         if other == 0:
             return self
         if not isinstance(other, self.__class__):
@@ -85,6 +87,8 @@ class Polynomial:
         return self.__add__(other)
 
     def __mul__(self, other):
+        if isinstance(other, RationalPolynomial):
+            return NotImplemented
         if self == 0 or other == 0:
             return self.__class__([])
 
@@ -130,10 +134,16 @@ class Polynomial:
         return other + (-self)
 
     def __pow__(self, power, modulo=None):
+        if power == 0:
+            return self.__class__([[1]])
+        if power < 0:
+            return RationalPolynomial([[1]], self ** -power)
         *_, last = power_supply(self, power)
         return last
 
     def __truediv__(self, other):
+        if isinstance(other, RationalPolynomial):
+            return NotImplemented
         if isinstance(other, self.__class__):
             return RationalPolynomial(self, other)
         # Assume scalar
@@ -168,10 +178,11 @@ class RationalPolynomial:
 
     def __init__(self, numer, denom=None):
         if isinstance(numer, self.__class__):
-            numer = numer.numer
-            denom = numer.denom
-        elif isinstance(numer, (list, tuple)):
+            numer, denom = numer.numer, numer.denom
+        elif isinstance(numer, (list, tuple, str)):
             numer = Polynomial(numer)
+        elif not isinstance(numer, Polynomial):
+            numer = Polynomial([[numer]])  # A plain number.
         if denom is None:
             denom = Polynomial([[1]])
         elif isinstance(denom, (list, tuple)):
@@ -197,6 +208,8 @@ class RationalPolynomial:
         return self.numer == other.numer and self.denom == other.denom
 
     def __add__(self, other):
+        if hasattr(other, 'algebra'):
+            return NotImplemented  # A multivector knows how to add a coefficient.
         if not isinstance(other, self.__class__):
             other = self.__class__(other)
 
@@ -220,8 +233,10 @@ class RationalPolynomial:
         return self.__add__(other)
 
     def __mul__(self, other):
+        if hasattr(other, 'algebra'):
+            return NotImplemented  # A multivector knows how to multiply by a coefficient.
         if not isinstance(other, self.__class__):
-            other = self.__class__([[other]])
+            other = self.__class__(other)
 
         if self == 0: return self
         if other == 0: return other
@@ -258,6 +273,8 @@ class RationalPolynomial:
         return self.__class__(self.denom, self.numer)
 
     def __truediv__(self, other):
+        if isinstance(other, Polynomial):
+            other = self.__class__(other)
         if isinstance(other, self.__class__):
             return self * other.inv()
         return self.__class__(self.numer / other, self.denom)
@@ -278,6 +295,8 @@ class RationalPolynomial:
         return other + (-self)
 
     def __pow__(self, power, modulo=None):
+        if power == 0:
+            return self.__class__([[1]])
         if power < 0:
             *_, last = power_supply(self, -power)
             return 1 / last
